@@ -1,6 +1,7 @@
 package scheduler
 
 import (
+	"bytes"
 	"os/exec"
 	"sync"
 	"sync/atomic"
@@ -127,7 +128,9 @@ func (s *Scheduler) runStage(stage *Stage) error {
 		return s.Schedule(stage.Pipeline)
 	}
 
-	t := stage.Task
+	// run a private copy of the task, so that the stage's overrides stay with this stage
+	t := *stage.Task
+	t.Log.Stdout, t.Log.Stderr = bytes.Buffer{}, bytes.Buffer{}
 	if stage.Env != nil {
 		if t.Env == nil {
 			t.Env = stage.Env
@@ -140,9 +143,14 @@ func (s *Scheduler) runStage(stage *Stage) error {
 		if t.Variables == nil {
 			t.Variables = stage.Variables
 		} else {
-			t.Variables = t.Env.Merge(stage.Variables)
+			t.Variables = t.Variables.Merge(stage.Variables)
 		}
 	}
+
+	if stage.Dir != "" {
+		t.Dir = stage.Dir
+	}
+	stage.Task = &t
 
 	return s.taskRunner.Run(stage.Task)
 }
